@@ -277,6 +277,34 @@ def read (c : Conn) (max : Nat) (q : Net) : ReadRes :=
                           peak := Nat.max c.peak buf.length } max q'
   | none => readData P c max q
 
+/-- outcome of the `Read` that meets the final chunk of the stream, handed out by `conn.Read`
+**together with an error** (n > 0 and err ≠ nil from one call, which `io.Reader` permits) -/
+inductive LastRes
+  /-- bytes from `rxBuf`, nil error; the final chunk is still on the socket -/
+  | data (c : Conn) (out : Bytes)
+  /-- `out` returned together with the error -/
+  | dataErr (c : Conn) (out : Bytes)
+  /-- only the error is returned -/
+  | fail (c : Conn) (e : Err)
+deriving Repr, DecidableEq
+
+/-- `Read` (buffer `max ≥ |chunk|`) when the socket queue is empty and the next `conn.Read` returns
+`chunk` with an error.
+* after the magic: `cipher.StreamReader.Read` decrypts and returns the bytes with the error;
+* **inside `findPeerMagic`**: `if err != nil { return err }` — the code comments "Read can return
+  partial data and an error, but continuing past that is nonsensical": the n bytes are discarded
+  (even if they contain the magic and data), the conn is closed, the error returned. -/
+def readLast (c : Conn) (max : Nat) (chunk : Bytes) : LastRes :=
+  if c.closed then .fail c .closed else
+  match c.rxMagic with
+  | some _ => .fail { c with closed := true } .eof
+  | none =>
+    match c.rxBuf with
+    | some (b :: bs) =>
+      .data { c with rx := (c.rx.xor P.sxor ((b :: bs).take max)).1, rxBuf := some ((b :: bs).drop max) }
+        (c.rx.xor P.sxor ((b :: bs).take max)).2
+    | _ => .dataErr { c with rxBuf := none, rx := (c.rx.xor P.sxor chunk).1 } (c.rx.xor P.sxor chunk).2
+
 /-- the network reports EOF to a `Read` that is blocked / about to block: inside `findPeerMagic`
 the conn is closed, otherwise the error is just returned -/
 def readEof (c : Conn) : Conn :=
